@@ -48,6 +48,7 @@ LEVEL_NOTE = "Trusted: pandas CSV reader/writer and pickle as transport; label-d
 PROCS = ["sysenv", "use phase", "end-of-life / recycling: Müll"]
 ITEMS_A = {"t": [2001, 2000, 2002], "p": ["p1", "p2"], "q": ["q1", "q2"]}  # typed int items listed unsorted
 ITEMS_B = {"t": [1990, 1995, 2005], "p": ["steel", "wood"], "q": ["new", "old"]}  # decoy: same names, letters, lengths
+ITEMS_M = {"t": [2001, 2000, 2002], "p": ["p1", "p2"], "q": ["old", 7]}  # an untyped dimension whose items have mixed types
 ITEMS = ITEMS_A
 NAMES = {"t": "Time", "p": "Product", "q": "Quality"}
 ARRS = ["", "t", "tp", "pt", "qtp", "pq"]
@@ -56,7 +57,7 @@ ARRS = ["", "t", "tp", "pt", "qtp", "pq"]
 def DS(letters):
     from flodym import Dimension, DimensionSet
 
-    return DimensionSet(dim_list=[Dimension(name=NAMES[l], letter=l, items=list(ITEMS[l]), dtype=int if l == "t" else str) for l in letters])
+    return DimensionSet(dim_list=[Dimension(name=NAMES[l], letter=l, items=list(ITEMS[l]), dtype=int if l == "t" else (None if isinstance(ITEMS[l][-1], int) else str)) for l in letters])
 
 
 def values_for(letters, k, prov):
@@ -75,20 +76,21 @@ def values_for(letters, k, prov):
 def build(spec):
     import flodym
 
-    procs = flodym.make_processes(PROCS[: spec["nproc"]])
+    PN = spec.get("names", PROCS)
+    procs = flodym.make_processes(PN[: spec["nproc"]])
     if spec.get("proc_order") == "reversed":  # a hand-built system: dict order differs from the order of the ids
         procs = dict(reversed(list(procs.items())))
     flows = {}
     for k, (s, d, a, prov) in enumerate(spec["flows"]):
-        name = f"{PROCS[s]} => {PROCS[d]}" + ("" if spec["flows"][:k].count(spec["flows"][k]) == 0 and not any(f[0] == s and f[1] == d for f in spec["flows"][:k]) else f" #{k}")
-        flows[name] = flodym.Flow(from_process=procs[PROCS[s]], to_process=procs[PROCS[d]], name=name, dims=DS(a), values=values_for(a, k, prov))
+        name = f"{PN[s]} => {PN[d]}" + ("" if spec["flows"][:k].count(spec["flows"][k]) == 0 and not any(f[0] == s and f[1] == d for f in spec["flows"][:k]) else f" #{k}")
+        flows[name] = flodym.Flow(from_process=procs[PN[s]], to_process=procs[PN[d]], name=name, dims=DS(a), values=values_for(a, k, prov))
     stocks = {}
     for k, (proc, a, key) in enumerate(spec["stocks"]):
         ds = DS(a)
         st = flodym.SimpleFlowDrivenStock(
             dims=ds,
             name=key,
-            process=None if proc is None else procs[PROCS[proc]],
+            process=None if proc is None else procs[PN[proc]],
             stock=flodym.StockArray(dims=ds, values=values_for(a, 10 + 3 * k, "F")),
             inflow=flodym.StockArray(dims=ds, values=values_for(a, 11 + 3 * k, "C")),
             outflow=flodym.StockArray(dims=ds, values=values_for(a, 12 + 3 * k, "C")),
@@ -136,6 +138,9 @@ def run_case(spec, export):
     # prelude: the same export was run before on a DECOY system with equally named, equally long dimensions
     # but different items and values (exports must not remember anything from earlier exports)
     global ITEMS
+    main_items = ITEMS_M if spec.get("mixed") else ITEMS_A
+    if spec.get("mixed") and export not in ("numpy", "pandas", "pickle"):
+        return "n/a", None  # mixed-type labels do not survive CSV text
     ITEMS = ITEMS_B
     try:
         decoy = build(spec)
@@ -156,7 +161,7 @@ def run_case(spec, export):
         finally:
             shutil.rmtree(dtmp, ignore_errors=True)
     finally:
-        ITEMS = ITEMS_A
+        ITEMS = main_items
     st, mfa = attempt(lambda: build(spec))
     if st == "raised":
         raise RuntimeError(f"harness could not build {spec}: {mfa}")
@@ -272,16 +277,23 @@ def run_case(spec, export):
                 unmatched.remove(hit)
     finally:
         shutil.rmtree(tmp, ignore_errors=True)
+    ITEMS = ITEMS_A
     if snapshot(mfa) != before:
         return fail("system-changed", "exporting altered the system")
     return "export-faithful", None
 
 
 EXPORTS = ["numpy", "pandas", "pickle", "flows-csv", "stocks-csv", "stocks-csv-io"]
-STOCK_CFGS = [[], [[1, "tp", "in use"]], [[1, "tp", "in use"], [None, "t", "Lager: alt/neu"]], [[0, "t", "outside"], [1, "tpq", "in use (2)"]]]
+STOCK_CFGS = [[], [[None, "t", "loose stock"], [1, "tp", "in use"]], [[1, "tp", "in use"]], [[1, "tp", "in use"], [None, "t", "Lager: alt/neu"]], [[0, "t", "outside"], [1, "tpq", "in use (2)"]]]
+
+
+SEPARATOR_SPEC = dict(nproc=5, names=["sysenv", "steel", "scrap sorting", "steel scrap", "sorting"], flows=[[1, 2, "tp", "C"], [3, 4, "tp", "F"]], stocks=[], proc_order="listed")
 
 
 def specs(tier, seed=0):
+    yield dict(SEPARATOR_SPEC)
+    for a in ("pq", "qtp"):
+        yield dict(nproc=2, flows=[[0, 1, a, "C"]], stocks=[[1, "tpq", "in use"]], proc_order="listed", mixed=True)
     for nproc in (2, 3):
         pairs = [(s, d) for s in range(nproc) for d in range(nproc)]
         types = [(s, d, a, prov) for s, d in pairs for a in ARRS for prov in (("C",) if len(a) < 2 else ("C", "F"))]
